@@ -90,6 +90,17 @@ theorem tramp_cancelled_never_run (fixed : Bool) (prog : List Op) (clock : Int) 
     okCancel (runA fixed (init prog clock) acts).th.log :=
   (reach fixed prog clock acts).i3.oc
 
+/-- the deterministic executor used in the examples below (and by the driver) is an instance of `runA` -/
+theorem exec_is_runA (fixed : Bool) (n : Nat) (s : St) : ∃ acts, exec fixed n s = runA fixed s acts := by
+  induction n generalizing s with
+  | zero => exact ⟨[], rfl⟩
+  | succ n ih =>
+    unfold exec
+    split
+    · exact ⟨[], rfl⟩
+    · obtain ⟨acts, h⟩ := ih (step fixed s 0)
+      exact ⟨.go 0 :: acts, by rw [h]; rfl⟩
+
 /-! ## Non-vacuity and the past-due deviation (DESIGN §6 #15, first half) -/
 
 /-- A schedules B (cancels it later), C, and a timed D; C schedules E; B is cancelled by A. -/
